@@ -13,6 +13,7 @@ from ..engine import EQ, GE, LE, LT, GT, AND, OR, NOT, IMPLIES, MAX, INF
 from ..explore import Family
 from ..kit import Log, simulate, now, classify_run_exception
 from ..probe import Probe
+from . import c07 as _c07
 
 BOUNDS = ('start in [-20,20]; delays in [0,60]; dates in [start-30, start+60]; '
           'quick: 1 activity x 3 waits (9 kinds), 2 activities x 2 waits (4 kinds), '
@@ -284,6 +285,12 @@ FAMILIES = [
     Family('pair2real', fam_waits,
            thorough=dict(k=2, waits=2, kinds=K5, real=True),
            bounds='2 activities x 2 waits, exact rational dates'),
+    Family('reuse', _c07.fam_reuse, quick=dict(), thorough=dict(real=True),
+           reach=['first-wait-abandoned', 'second-use-already-true', 'second-use-never'],
+           bounds='one stored time == u / time >= u object waited for twice (directly inside '
+                  'until(time + b), which may abandon the wait, or as an until notification): the '
+                  'second wait resumes exactly at its date / at once / never, whatever the first '
+                  'use left behind (harness shared with C07)'),
     Family('many', fam_many,
            quick=dict(k=6),
            thorough=dict(k=7),
